@@ -119,6 +119,7 @@ type frame struct {
 	panic            interface{}
 	phitemps         []value // temporaries for parallel phi assignment
 	cur              ssa.Instruction
+	tolerant         bool // library package initialiser: an initialiser we cannot run leaves its variable zero
 }
 
 func (fr *frame) get(key ssa.Value) value {
@@ -500,6 +501,7 @@ func callSSA(i *interpreter, caller *frame, callpos token.Pos, fn *ssa.Function,
 	}
 
 	fr.env = make(map[ssa.Value]value)
+	fr.tolerant = fn.Synthetic == "package initializer" && !i.inModule(fn.Pkg)
 	fr.block = fn.Blocks[0]
 	fr.locals = make([]value, len(fn.Locals))
 	for i, l := range fn.Locals {
@@ -582,6 +584,12 @@ func runFrame(fr *frame) {
 			}
 			fr.i.x.tick()
 			fr.cur = instr
+			if fr.tolerant {
+				if tolerantVisit(fr, instr) == kReturn {
+					return
+				}
+				continue
+			}
 			if visitInstr(fr, instr) == kReturn {
 				return
 			}
@@ -657,4 +665,28 @@ func doRecover(caller *frame) value {
 		}
 	}
 	return iface{}
+}
+
+// tolerantVisit executes one instruction of a library package initialiser;
+// if the initialising expression reaches something the engine does not model,
+// the variable keeps its zero value and initialisation goes on.
+func tolerantVisit(fr *frame, instr ssa.Instruction) (k continuation) {
+	defer func() {
+		if p := recover(); p != nil {
+			switch p.(type) {
+			case abortPath, budgetErr, assertStop:
+				panic(p)
+			}
+			fr.i.unwinding = false
+			if v, ok := instr.(ssa.Value); ok {
+				func() {
+					defer func() { recover() }()
+					fr.env[v] = zero(v.Type())
+				}()
+			}
+			fr.i.x.initIncomplete = append(fr.i.x.initIncomplete, fr.fn.Pkg.Pkg.Path())
+			k = kNext
+		}
+	}()
+	return visitInstr(fr, instr)
 }
